@@ -7,6 +7,9 @@ built through the public constructors.  For every value x:
     parsed = Parser(fresh Context + Builtin, text).parse_attribute() / parse_type()
 
 Oracle (independent of Attribute.__eq__ and of the printer / parser):
+  * the built value holds the payload the desc gave to the constructor (expected element bytes / float bits / integer
+    computed by the harness from the desc alone, mc/attrgen.expected_payload), and the MLIR literal written by the
+    harness from the desc (mc/attrgen.literal, not the printer) parses to the same payload;
   * neither step raises on a constructible value;
   * akey(parsed) == akey(x)      structural key: class + parameters, every float by its bit pattern;
   * dense attributes: the element bit patterns extracted from the raw buffers with `struct` are identical;
@@ -222,6 +225,38 @@ def check_value(st: Stats, desc: Any, fam: str = "?") -> tuple[Any, bool] | None
         st.violate(f"{head}|{kind}", what, {**wit, **extra})
         st.outcomes[f"{fam}: VIOLATION {kind}"] += 1
 
+    # ---- the constructor keeps the payload it was given (expected payload computed from the desc alone)
+    exp = G.expected_payload(desc)
+    if exp is not None:
+        st.evaluations += 1
+        obs = G.observed_payload(desc, x)
+        if obs != exp:
+            bad("constructor-changes-payload",
+                f"{cls} built from {str(desc)[:100]} holds a payload that differs from the data given to the constructor",
+                expected=[hex(v) if isinstance(v, int) else v for v in exp[2]][:16],
+                observed=[hex(v) if isinstance(v, int) else v for v in obs[2]][:16] if obs else None)
+        else:
+            st.outcomes[f"{fam}: constructor keeps the given payload"] += 1
+        # ---- the literal written by the harness (not by the printer) parses to that payload as well
+        lit = G.literal(desc)
+        if lit is not None:
+            st.evaluations += 1
+            st.executions += 1
+            lctx = Context()
+            lctx.load_dialect(Builtin)
+            try:
+                lp = Parser(lctx, lit).parse_attribute()
+                lobs = G.observed_payload(desc, lp) if type(lp).__name__ == cls else ("class", type(lp).__name__, ())
+            except Exception as e:  # noqa: BLE001
+                lobs = None
+                bad(f"literal-parse-raises|{type(e).__name__}", f"the literal {lit[:100]!r} (written by the harness) does not parse: "
+                    f"{str(getattr(e, 'msg', e))[:100]}", literal=lit)
+            if lobs is not None and lobs != exp:
+                bad("literal-parse-changes-payload", f"the literal {lit[:100]!r} parses to a payload that differs from the written elements",
+                    literal=lit, expected=[hex(v) if isinstance(v, int) else v for v in exp[2]][:16],
+                    observed=[hex(v) if isinstance(v, int) else v for v in lobs[2]][:16])
+            elif lobs is not None:
+                st.outcomes[f"{fam}: harness literal parses to the written payload"] += 1
     # ---- print
     try:
         text = str(x)
